@@ -1,7 +1,6 @@
 SPECIFICATION Spec
 CONSTANTS
-  DefTTL = 6
-  Topos = {"chain2", "chain3", "chain4", "chain5", "chain6", "star5", "ytree5", "tree6", "broom6"}
+  Topos <- FullTopos
   DumpFile = "ping_vectors.ndjson"
 INVARIANTS
   ReachIffVec
